@@ -23,6 +23,9 @@ def run(c):
     c.mc("Transport", cfg_text(constants=consts(types="<-ConnTypes"), invariants=["C15"], spec="SpecNoGate"),
          expect="C15", name="sensitivity: dispatch without the authentication gate")
 
+    c.mc("Transport", cfg_text(constants=consts(types="<-ConnTypes"), invariants=["C15"], spec="SpecNoGateInKex"),
+         expect="C15", name="sensitivity: gate skipped while the server's own KEXINIT is outstanding")
+
     rnd = random.Random(c.seed)
     batch = []
     states = ["newkeys", "service", "failed", "partial"]
@@ -48,6 +51,19 @@ def run(c):
                 c.case(key=(state, t, variant), sample=ev if (t in (80, 90, 94) and variant == "wellformed" and state == "failed") else None)
         batch.append({"events": events, "state": state})
         p.close()
+    # the server itself starts a re-exchange before authentication; while only ITS KEXINIT is out the client sends
+    # connection-layer requests (the gate must not depend on the key-exchange state)
+    for state in ("newkeys", "failed", "partial"):
+        p = tr.Probe("server", state)
+        probes = [(80, tr.wellformed(80, rnd)), (90, tr.wellformed(90, rnd)), (80, b""), (90, tr.wellformed(90, rnd))]
+        evs = p.rekey_window(probes)
+        if not evs or not evs[0]["in_kex"]:
+            raise Machinery("driver: server was not inside its own key exchange during the pre-auth window probe")
+        for ev in evs:
+            ev["state"], ev["variant"] = state + "+own-rekey", "wellformed"
+            c.case(key=(state, ev["t"], "own-rekey-window"), sample=ev if ev["t"] == 90 and state == "failed" else None)
+        batch.append({"events": evs, "state": state})
+        p.close()
     res, _ = c.trace("Transport_Trace", batch, cfg_text(spec="TSpec", constants=consts(), invariants=["Report"]))
     if len(res["DONE"]) != len(batch):
         raise Machinery("trace validation consumed %d of %d traces" % (len(res["DONE"]), len(batch)))
@@ -55,7 +71,7 @@ def run(c):
 
     def describe(tid, clause, row):
         ev = batch[tid - 1]["events"][row[2] - 1]
-        key = "%s:type%d" % (clause, ev["t"])
+        key = "%s:type%d%s" % (clause, ev["t"], ":own-rekey-window" if ev.get("in_kex") else "")
         return key, "%s: pre-auth state %s, type %d (%s payload): callbacks %r, channels %d, accept queue %d, reply %r, active %r" % (
             clause, ev["state"], ev["t"], ev["variant"], ev["cbs"], ev["nchans"], ev["accepts"], ev["reply"], ev["active"]), ev
     c.verdicts(res["VERDICT"], describe)
